@@ -59,6 +59,8 @@ class SrcFile:
 
     def item(self, path, kind=None):
         c = [i for i in self._flat.get(path, []) if kind is None or i["kind"] == kind or (kind == "fn" and i["kind"] in ("fn", "impl_fn", "trait_fn"))]
+        if len(c) > 1 and kind is None:
+            c = [i for i in c if i["kind"] not in ("impl", "use")]
         if len(c) != 1:
             raise Undecided("item %s (%s) found %d times in %s" % (path, kind, len(c), self.rel))
         return c[0]
@@ -143,6 +145,7 @@ class Unit:
         self.name = name
         self.repo = repo or Repo()
         self.pieces = []
+        self.ext_pieces = []   # plain-Rust region outside verus!{}: types Verus treats as opaque external types
         self.rules = {}  # rule -> list of descriptions
         self.functions = []  # functions under contract: dict(name, rel, line, rules, gen_name)
         self.stubs = []
@@ -164,10 +167,10 @@ class Unit:
     def rule(self, r, what):
         self.rules.setdefault(r, []).append(what)
 
-    def emit(self, text, kind="contract", rule=None):
+    def emit(self, text, kind="contract", rule=None, fn=None):
         if not text.endswith("\n"):
             text += "\n"
-        self.pieces.append(Piece(text, kind, rule=rule))
+        self.pieces.append(Piece(text, kind, rule=rule, fn=fn))
 
     def raw(self, text):
         self.emit(text, "contract")
@@ -267,6 +270,56 @@ class Unit:
             return [(v[0], v[1], "pub", "rule", "E2")]
         return []
 
+    # ---- take_ext: repo types kept OUTSIDE verus!{} (opaque to Verus, fully checked by rustc) ----
+    def take_ext(self, sf, paths, modname, uses="", opaque=True):
+        """Copy the listed type definitions verbatim (derives kept) into a plain-Rust module `modname` placed
+        outside the verus! block, re-export them into the current verus module and declare them as opaque
+        external types. Only cfg(windows) variants/items are dropped (E2)."""
+        saved = self.pieces
+        self.pieces = self.ext_pieces
+        self.emit("pub mod %s {\n#![allow(unused_imports, dead_code, non_snake_case)]\n%s" % (modname, uses), "glue", "E1")
+        names = []
+        for path in paths:
+            it = sf.item(path)
+            edits = []
+            for a in it.get("attrs", []):
+                if a["name"] == "cfg":
+                    c = re.sub(r"\s+", "", a["text"])
+                    if c in ("#[cfg(not(windows))]", "#[cfg(unix)]"):
+                        edits.append((a["span"][0], a["span"][1], "", "rule", "E2"))
+                    else:
+                        raise Undecided("item %s carries %s" % (path, c))
+            start = self._after_attrs(sf, it)
+            edits += self._vis_edits(sf, it, start, True)
+            for v in it.get("variants", []):
+                cfgs = [re.sub(r"\s+", "", a["text"]) for a in v["attrs"] if a["name"] == "cfg"]
+                if any(c in ("#[cfg(windows)]", "#[cfg(test)]") for c in cfgs):
+                    end = v["span"][1]
+                    while sf.b[end:end + 1] in (b" ", b"\n", b"\t", b"\r"):
+                        end += 1
+                    if sf.b[end:end + 1] == b",":
+                        end += 1
+                    edits.append((v["span"][0], end, "", "rule", "E2"))
+                    self.rule("E2", "%s: variant %s under cfg(windows) dropped" % (path, v["name"]))
+            for f in it.get("fields", []):
+                fs = f["span"][0]
+                for a in f["attrs"]:
+                    fs = max(fs, a["span"][1])
+                while sf.b[fs:fs + 1] in (b" ", b"\n", b"\t", b"\r"):
+                    fs += 1
+                if f["vis"] is None:
+                    edits.append((fs, fs, "pub ", "rule", "E2"))
+            self.pieces += apply_edits(sf, it["span"][0], it["span"][1], edits)
+            self.emit("", "glue")
+            names.append(it["name"])
+            self.rule("E1", "%s %s kept outside verus! (opaque external type)  <- %s:%d" % (it["kind"], path, sf.rel, sf.line_of(it["span"][0])))
+        self.emit("} // mod %s" % modname, "glue", "E1")
+        self.pieces = saved
+        self.emit("pub use crate::%s::{%s};" % (modname, ", ".join(names)), "glue", "E1")
+        if opaque:
+            for n in names:
+                self.emit("#[verifier::external_type_specification]\n#[verifier::external_body]\npub struct VxEx_%s_%s(crate::%s::%s);" % (modname, n, modname, n), "glue", "E1")
+
     # ---- take: struct / enum / const ---------------------------------------
     def take(self, sf, path, kind=None, keep_derive=(), extra_attrs="", make_pub=True, structural=False):
         it = sf.item(path, kind)
@@ -309,6 +362,17 @@ class Unit:
                         edits.append((v[0], v[1], "pub", "rule", "E2"))
         if k == "enum":
             for v in it["variants"]:
+                cfgs = [re.sub(r"\s+", "", a["text"]) for a in v["attrs"] if a["name"] == "cfg"]
+                if any(c in ("#[cfg(windows)]", "#[cfg(test)]") for c in cfgs):
+                    # E2: variant only present on windows: dropped together with its trailing comma
+                    end = v["span"][1]
+                    while sf.b[end:end + 1] in (b" ", b"\n", b"\t", b"\r"):
+                        end += 1
+                    if sf.b[end:end + 1] == b",":
+                        end += 1
+                    edits.append((v["span"][0], end, "", "rule", "E2"))
+                    self.rule("E2", "%s: variant %s under cfg(windows) dropped" % (path, v["name"]))
+                    continue
                 for a in v["attrs"]:
                     edits.append((a["span"][0], a["span"][1], "", "rule", "E2"))
                 for f in v.get("fields", []):
@@ -616,9 +680,9 @@ class Unit:
             pre_body = pre_body.rstrip() + "\nproof { assert(false); } // @TWIN\n"
         head = "pub %sfn %s(%s)%s%s{\n%s" % ("async " if is_async else "", name, params,
                                             (" -> (r: %s)" % ret_type) if ret_type else "", ctext, pre_body)
-        self.emit(head, "rule", "E5")
+        self.emit(head, "rule", "E5", fn=path + "[" + name + "]")
         self.pieces += apply_edits(sf, lo, hi, edits, fn=path + "[" + name + "]")
-        self.emit("\n" + tail + "}\n", "rule", "E5")
+        self.emit("\n" + tail + "}\n", "rule", "E5", fn=path + "[" + name + "]")
         line = sf.line_of(lo)
         self.rule("E5", "%s: bytes %d..%d (lines %d..%d) lifted into fn %s(%s) %s" % (path, lo, hi, line, sf.line_of(hi), name, params, what))
         self.functions.append(dict(name=path + "[" + name + "]", rel=sf.rel, line=line, rules=["E5"], gen_name=name,
@@ -637,13 +701,18 @@ class Unit:
                     hdr.append("//    %s: %s" % (r, w))
         feats = "".join("#![feature(%s)]\n" % f for f in self.features)
         prefix = "\n".join(hdr) + "\n" + feats + "#![allow(unused_imports, unused_variables, dead_code, unused_mut, non_snake_case, unused_assignments, unreachable_code, unused_parens, non_camel_case_types, non_upper_case_globals)]\n" + \
-            "use vstd::prelude::*;\n" + header_extra + "verus! {\n"
+            "use vstd::prelude::*;\n" + header_extra
+        ext_text = "".join(p.text for p in self.ext_pieces)
+        mid = "verus! {\n"
         suffix = "\n} // verus!\nfn main() {}\n"
-        text = prefix + body + suffix
-        # line map
-        linemap = {}
+        text = prefix + ext_text + mid + body + suffix
         off2piece = []
         pos = len(prefix.encode())
+        for p in self.ext_pieces:
+            n = len(p.text.encode())
+            off2piece.append((pos, pos + n, p))
+            pos += n
+        pos += len(mid.encode())
         for p in self.pieces:
             n = len(p.text.encode())
             off2piece.append((pos, pos + n, p))
